@@ -199,7 +199,7 @@ func (u *Unit) checkExit(st *State, fr *Frame) {
 			}
 		}
 	}
-	if len(vals) == 1 {
+	if len(vals) == 1 && !hasParamNamed(u.sig, "result") {
 		sev.binds["result"] = vals[0]
 	}
 	for i, e := range u.c.Ensures {
